@@ -663,4 +663,71 @@ theorem truncation_delivers_a_prefix (doc : Bytes) (k : Nat) :
   have := decode_prefix (doc.take k) (doc.drop k)
   rwa [List.take_append_drop] at this
 
+
+/-- an error other than "input ended" is not an artefact of truncation: it is there for every
+    continuation of the input -/
+theorem decodeLoop_error_persists : ∀ (f1 f2 : Nat) (x y : Bytes) (e : DecErr), x.length ≤ f1 → (x ++ y).length ≤ f2 →
+    (decodeLoop f1 x).2 = some e → e ≠ .eof → (decodeLoop f2 (x ++ y)).2 = some e
+  | _, _, [], y, e, _, _, h, _ => by simp [decodeLoop] at h
+  | 0, _, b :: r, y, e, h1, _, _, _ => by simp at h1
+  | _, 0, b :: r, y, e, _, h2, _, _ => by simp at h2
+  | f1 + 1, f2 + 1, b :: r, y, e, h1, h2, h, hne => by
+    have hext := ext_decodeOne (b :: r) y (by simp)
+    unfold Ext at hext
+    simp only [List.cons_append] at hext ⊢
+    unfold decodeLoop at h ⊢
+    cases hd : decodeOne (b :: r) with
+    | error q =>
+      obtain ⟨e', p⟩ := q
+      simp only [hd] at hext h
+      simp only [Option.some.injEq] at h
+      subst h
+      simp only [hne, if_false] at hext
+      simp [hext]
+    | ok q =>
+      obtain ⟨evs, r'⟩ := q
+      simp only [hd] at hext h
+      simp only [hext]
+      have hlen : r'.length < (b :: r).length := decodeOne_progress _ _ _ hd
+      exact decodeLoop_error_persists f1 f2 r' y e (by simp at hlen h1 ⊢; omega) (by simp at hlen h2 ⊢; omega) h hne
+
+theorem decode_error_persists (x y : Bytes) (e : DecErr) (h : (decode x).2 = some e) (hne : e ≠ .eof) :
+    (decode (x ++ y)).2 = some e := by
+  cases x with
+  | nil => simp [decode] at h; exact (hne h.symm).elim
+  | cons hb r =>
+    simp only [List.cons_append]
+    unfold decode at h ⊢
+    simp only [] at h ⊢
+    by_cases hs : hb.toNat ≠ signature
+    · rw [if_pos hs] at h ⊢; exact h
+    · rw [if_neg hs] at h ⊢
+      have hu := extI_readUleb (2 ^ 64 - 1) r y
+      unfold ExtI at hu
+      cases hr : readUleb (2 ^ 64 - 1) r with
+      | error e' =>
+        simp only [hr] at hu h
+        simp only [Option.some.injEq] at h
+        subst h
+        rw [hu hne]
+      | ok p =>
+        obtain ⟨v, r'⟩ := p
+        simp only [hr] at hu h
+        simp only [hu]
+        exact decodeLoop_error_persists r'.length (r' ++ y).length r' y e (Nat.le_refl _) (Nat.le_refl _) h hne
+
+/-- cutting a document that decodes without error can only produce a clean stop between two tokens or
+    an "input ended" error, never another kind of error -/
+theorem truncation_error_is_eof (doc : Bytes) (k : Nat) (h : (decode doc).2 = none) :
+    (decode (doc.take k)).2 = none ∨ (decode (doc.take k)).2 = some .eof := by
+  cases hk : (decode (doc.take k)).2 with
+  | none => exact .inl rfl
+  | some e =>
+    by_cases he : e = .eof
+    · exact .inr (by rw [he])
+    · have := decode_error_persists (doc.take k) (doc.drop k) e hk he
+      rw [List.take_append_drop] at this
+      rw [h] at this
+      cases this
+
 end CE.Cbe
